@@ -43,6 +43,7 @@ func (f *Polynomial) Neg() *Polynomial {
 	for deg, c := range f.coefs {
 		g.coefs[deg] = c.Neg()
 	}
+	g.err = f.err
 	return g
 }
 
@@ -175,7 +176,9 @@ func (f *Polynomial) Normalize() *Polynomial {
 // result as a new polynomial. See also SetScale.
 func (f *Polynomial) Scale(c ff.Element) *Polynomial {
 	if c.IsZero() {
-		return f.baseRing.Zero()
+		g := f.baseRing.Zero()
+		g.err = f.err
+		return g
 	}
 
 	g := f.Copy()
